@@ -251,3 +251,18 @@ def rename(expr_or_list, mapping):
     if isinstance(expr_or_list, (list, tuple)):
         return [rename(e, mapping) for e in expr_or_list]
     return expr_or_list.subs(mapping, simultaneous=True)
+
+
+
+def elementwise_loop_rule(ex, st, env, rng):
+    """loop rule for `for i in range(n)` with symbolic n and no loop-carried scalar state: the body is executed once for a
+    generic index 0 <= i < n.  Frame obligations (writes only at the generic index) are checked by the caller on ex.effects."""
+    import sympy as _sp
+    i = _sp.Symbol(f"{st.target.id}_idx", integer=True) if isinstance(st.target, _ast.Name) else None
+    if i is None:
+        raise SymExError("loop target must be a simple name")
+    ex.facts.append(_sp.Ge(i, rng.start))
+    ex.facts.append(_sp.Lt(i, rng.stop))
+    env[st.target.id] = i
+    ex.loop_indices = getattr(ex, "loop_indices", []) + [i]
+    ex.exec_block(st.body, env)
